@@ -2,6 +2,7 @@
 """Prints the markdown table of seeded defects and which check tier detects them (from seeded/*/meta.json + result.json)."""
 import json, os, glob
 V = os.path.dirname(os.path.dirname(os.path.abspath(__file__)))
+tot = {"total": 0, "own_quick": 0, "own_thorough_only": 0, "sibling_only": 0, "missed": 0}
 print("| seeded change | property | what it does | needs, to manifest | detected by |")
 print("|---|---|---|---|---|")
 for d in sorted(glob.glob(os.path.join(V, "seeded", "*"))):
@@ -15,7 +16,22 @@ for d in sorted(glob.glob(os.path.join(V, "seeded", "*"))):
     for tier in ("quick", "thorough"):
         if tier in r:
             det.append("%s: %s" % (tier, "yes" if r[tier]["detected"] else "NO"))
+    for k in sorted(r):
+        if "-by-" in k:
+            det.append("%s: %s" % (k, "yes" if r[k]["detected"] else "NO"))
+    tot["total"] += 1
+    if r.get("quick", {}).get("detected"):
+        tot["own_quick"] += 1
+    elif r.get("thorough", {}).get("detected"):
+        tot["own_thorough_only"] += 1
+    elif any(("-by-" in k) and r[k]["detected"] for k in r):
+        tot["sibling_only"] += 1
+    else:
+        tot["missed"] += 1
     note = m.get("coordinator_note", "")
     def clean(s):
         return " ".join(str(s).replace("|", "\\|").split())[:260]
     print("| %s | %s | %s | %s | %s%s |" % (os.path.basename(d), m["property"], clean(m.get("summary", "")), clean(m.get("needs_to_manifest", "")), ", ".join(det), (" — " + note) if note else ""))
+
+print()
+print("Totals: %(total)d seeded changes; %(own_quick)d detected by the quick tier of their own property's check; %(own_thorough_only)d only by its thorough tier; %(sibling_only)d only by another property's check (recorded as quick-by-<ID>); %(missed)d not detected." % tot)
